@@ -13,6 +13,7 @@ Vid(i) == IF i = 0 THEN "v0" ELSE IF i = 1 THEN "v1" ELSE IF i = 2 THEN "v2" ELS
 Ops == {O("setprefix", t, "", "", "", FALSE) : t \in MCTypes}
        \cup {O("setsession", 0, s, "", "", FALSE) : s \in Sids}
        \cup {O("setlang", 0, l, "", "", FALSE) : l \in Langs}
+       \cup {O("setctxlang", 0, l, "", "", FALSE) : l \in Langs}
        \cup {O("setlock", t, "", "", "", b) : t \in (MCTypes \cap SafeLock) \cup {0}, b \in BOOLEAN}
        \cup {O("put", 0, "", k, Vid(nv), FALSE) : k \in Keys}
        \cup {O("get", 0, "", k, "", FALSE) : k \in Keys}
